@@ -112,8 +112,11 @@ func carriers(n int64) []gen.Named {
 	// the other carriers of a number the library knows: a decimal.Decimal and an implementer of Number (the latter
 	// where a float64 holds n exactly)
 	add("decimal.Decimal", decimal.NewFromInt(n))
-	if exact64 && n > -1000000 && n < 1000000 {
+	dp := decimal.NewFromInt(n)
+	add("*decimal.Decimal", &dp)
+	if exact64 {
 		add("Number implementer", gen.ValNumber{N: float64(n)})
+		add("pointer to a Number implementer", &gen.ValNumber{N: float64(n)})
 	}
 	// ... and defined types that are errors or have their own idea of how fmt prints them
 	add("defined type on int with an Error method", gen.ErrInt(n))
